@@ -124,7 +124,8 @@ def run(ctx):
     ev = inline.view(prog, prog.fn(EVAL_IMPL), keep=lambda t: not (t.startswith("minijinja::vm::state::State::") or t.startswith("minijinja::vm::fuel::"))
                      or t in (TRACK, FFI, NEW, STATE_NEW))
     track = inline.view(prog, prog.fn(TRACK), keep=(FFI, NEW))
-    ffi = prog.fn(FFI)
+    # the cost function is read through a predicate it may delegate to (`is_free_instruction(instr)`)
+    ffi = inline.view(prog, prog.fn(FFI), keep=())
     looked_through = {EVAL_IMPL: set(inline.inlined_helpers(ev)), TRACK: set(inline.inlined_helpers(track))}
 
     def private_helper_of(path, owners):
@@ -141,8 +142,13 @@ def run(ctx):
                f.where(bb))
     nrefs = refs.get(NEW, [])
     ctx.floor("C13.G1 references to FuelTracker::new", len(nrefs), 1)
+    def only_called_from_state_new(g, depth=2):
+        sites = prog.callers().get(g.path, [])
+        return depth > 0 and bool(sites) and all(c.fn.path == STATE_NEW or only_called_from_state_new(c.fn, depth - 1) for c in sites) \
+            and all(how_ == "call" for _f, _b, how_ in refs.get(g.path, []))
     for f, bb, how in nrefs:
-        ctx.ob("C13.G1.new-referenced-only-by-State::new", "%s|%s" % (f.path, how), f.path == STATE_NEW,
+        ctx.ob("C13.G1.new-referenced-only-by-State::new", "%s|%s" % (f.path, how),
+               f.path == STATE_NEW or (f.path.startswith("minijinja::vm::fuel::") and how == "call" and only_called_from_state_new(f)),
                "a second fuel tracker can be created here: nested evaluations would get a fresh budget",
                f.where(bb))
     srefs = refs.get(STATE_NEW, [])
@@ -218,7 +224,19 @@ def run(ctx):
         if t["k"] == "switch":
             sw += 1
             cd = flow.cond_of(ffi, bb)
-            ok = cd.kind == "discr" and cd.adt == INSTR and cd.place["l"] == 1
+            ok = cd.kind == "discr" and cd.adt == INSTR and (cd.place["l"] == 1 or all(
+                o.kind == "arg" and o.arg == 1 for o in flow.origins(ffi, {"cp": {"l": cd.place["l"]}})))
+            if not ok and cd.kind == "local" and cd.place is not None and "p" not in cd.place:
+                # the verdict of a predicate over the discriminant (`if is_free_instruction(instr) { 0 } else { 1 }`): a
+                # boolean all of whose definitions are constants chosen by the switches above
+                ds_ = flow.whole_defs(ffi, cd.place["l"])
+                srcs_ = []
+                for d_ in ds_:
+                    if d_.kind == "stmt" and d_.rv["k"] == "use":
+                        srcs_ += flow.origins(ffi, d_.rv["op"])
+                    else:
+                        srcs_.append(None)
+                ok = bool(srcs_) and all(o is not None and o.kind == "const" for o in srcs_)
             ctx.ob("C13.G3.cost-depends-on-discriminant-only", "%s|switch#%d" % (FFI, sw), ok, "switch on %r" % cd,
                    ffi.where(bb))
     ctx.floor("C13.G3 switches in fuel_for_instruction", sw, 1)
@@ -322,6 +340,34 @@ def run(ctx):
         o.kind == "call" and o.call.name == "minijinja::environment::Environment::fuel" for o in flow.origins(sn, c.args[0]))]
     okm = bool(maps) and all(any(o.kind == "const" and NEW in str(o.const.get("fn", "")) for a in c.args[1:] for o in flow.origins(sn, a)) or
                              any("c" in a and NEW in str(a["c"].get("fn", "")) for a in c.args[1:]) for c in maps)
+    if not okm:
+        # the same without `map`: `Some(FuelTracker::new(b))` for the `b` of `env.fuel()?` in a helper read in place, None otherwise
+        snv = inline.view(prog, sn, keep=(NEW, "minijinja::environment::Environment::fuel", "fuel"), allow_pub=True)
+        thru = lambda k: 0 if (k.name.endswith("Try>::branch") or k.name.endswith("::clone")) else None
+        for f_, bb_, i_, rv_ in query.aggregates_of(prog, STATE):
+            pass
+        okm2 = False
+        for bb_, i_, st_ in snv.all_stmts():
+            rv_ = st_.get("rv", {})
+            if rv_.get("k") == "agg" and rv_.get("adt") == STATE and "fuel_tracker" in (rv_.get("fields") or []):
+                os_ = flow.origins(snv, rv_["ops"][rv_["fields"].index("fuel_tracker")])
+                good = bool(os_)
+                some_seen = False
+                for o in os_:
+                    if o.kind == "agg" and o.rv.get("variant") == "Some":
+                        inner = flow.origins(snv, o.rv["ops"][0])
+                        if inner and all(x.kind == "call" and x.call.name == NEW and any(
+                                y.kind == "call" and y.call.name == "minijinja::environment::Environment::fuel"
+                                for y in flow.origins(snv, x.call.args[0], through_calls=thru)) for x in inner):
+                            some_seen = True
+                        else:
+                            good = False
+                    elif (o.kind == "agg" and o.rv.get("variant") == "None") or (o.kind == "call" and "from_residual" in o.call.name):
+                        continue
+                    else:
+                        good = False
+                okm2 = good and some_seen
+        okm = okm2
     ctx.ob("C13.G6.tracker-is-built-from-the-configured-budget", STATE_NEW, okm,
            "State::new must build the tracker as `env.fuel().map(FuelTracker::new)`", sn.loc)
     ctx.count("dispatch arms", len(ev.term(disp)["arms"]))
